@@ -38,6 +38,56 @@ type branchMatcher struct {
 	charClass    [256]bool
 	minMatch     int
 	hasCharClass bool
+
+	// For concatenations of ASCII literals and single ASCII char classes like ba[rz]
+	// (the parser factors foo|bar|baz into foo|ba[rz])
+	seq []seqElem
+}
+
+// seqElem is one element of a sequence branch: literal bytes, or one byte of a class.
+type seqElem struct {
+	literal []byte
+	class   [256]bool
+}
+
+// matchSeq returns the length matched by the sequence at the start of haystack, or -1.
+func (m *branchMatcher) matchSeq(haystack []byte) int {
+	pos := 0
+	for i := range m.seq {
+		el := &m.seq[i]
+		if el.literal != nil {
+			if len(haystack)-pos < len(el.literal) {
+				return -1
+			}
+			for j, b := range el.literal {
+				if haystack[pos+j] != b {
+					return -1
+				}
+			}
+			pos += len(el.literal)
+			continue
+		}
+		if pos >= len(haystack) || !el.class[haystack[pos]] {
+			return -1
+		}
+		pos++
+	}
+	return pos
+}
+
+// asciiLiteral returns the bytes of a case-sensitive ASCII literal, or nil.
+func asciiLiteral(re *syntax.Regexp) []byte {
+	if re.Op != syntax.OpLiteral || re.Flags&syntax.FoldCase != 0 || len(re.Rune) == 0 {
+		return nil
+	}
+	lit := make([]byte, len(re.Rune))
+	for i, r := range re.Rune {
+		if r > 0x7F {
+			return nil
+		}
+		lit[i] = byte(r)
+	}
+	return lit
 }
 
 // NewBranchDispatcher creates a dispatcher for an anchored alternation.
@@ -95,8 +145,18 @@ func NewBranchDispatcher(re *syntax.Regexp) *BranchDispatcher {
 			}
 		}
 
-		// Build specialized matcher for this branch
+		// Build specialized matcher for this branch. The dispatcher has no general
+		// engine behind it, so every branch must be matched EXACTLY by its matcher.
 		branchMatchers[i] = buildBranchMatcher(branch)
+		if !branchMatchers[i].exact() {
+			return nil
+		}
+	}
+
+	if canMatchEmpty {
+		// An empty alternative matches at position 0 whatever the first byte is;
+		// first-byte dispatch cannot express that.
+		return nil
 	}
 
 	return &BranchDispatcher{
@@ -105,6 +165,27 @@ func NewBranchDispatcher(re *syntax.Regexp) *BranchDispatcher {
 		branchMatchers: branchMatchers,
 		canMatchEmpty:  canMatchEmpty,
 	}
+}
+
+// exact reports whether the matcher decides its branch completely: an ASCII,
+// case-sensitive literal, or a greedy ASCII char class under + or *.
+func (m *branchMatcher) exact() bool {
+	return len(m.literal) > 0 || m.hasCharClass || len(m.seq) > 0
+}
+
+// asciiClass fills the membership table; false if the class has non-ASCII members
+// (their UTF-8 encodings are multi-byte, the table is per byte).
+func asciiClass(cc *syntax.Regexp, table *[256]bool) bool {
+	for i := 0; i+1 < len(cc.Rune); i += 2 {
+		lo, hi := cc.Rune[i], cc.Rune[i+1]
+		if hi > 0x7F {
+			return false
+		}
+		for r := lo; r <= hi; r++ {
+			table[byte(r)] = true
+		}
+	}
+	return true
 }
 
 // buildBranchMatcher creates an optimized matcher for a single branch.
@@ -120,30 +201,33 @@ func buildBranchMatcher(re *syntax.Regexp) branchMatcher {
 
 	switch re.Op {
 	case syntax.OpLiteral:
-		// Literal like "UUID"
-		m.literal = make([]byte, len(re.Rune))
-		for i, r := range re.Rune {
-			if r > 255 {
-				return m // Non-ASCII, can't optimize
+		// Literal like "UUID" (case-sensitive ASCII only)
+		m.literal = asciiLiteral(re)
+
+	case syntax.OpConcat:
+		// Sequence of ASCII literals and single ASCII char classes, matched completely
+		for _, sub := range re.Sub {
+			var el seqElem
+			switch sub.Op {
+			case syntax.OpLiteral:
+				if el.literal = asciiLiteral(sub); el.literal == nil {
+					return branchMatcher{}
+				}
+			case syntax.OpCharClass:
+				if !asciiClass(sub, &el.class) {
+					return branchMatcher{}
+				}
+			default:
+				return branchMatcher{}
 			}
-			m.literal[i] = byte(r)
+			m.seq = append(m.seq, el)
 		}
 
 	case syntax.OpPlus:
 		// char_class+ like \d+
-		if len(re.Sub) == 1 && re.Sub[0].Op == syntax.OpCharClass {
-			cc := re.Sub[0]
-			for i := 0; i < len(cc.Rune); i += 2 {
-				lo, hi := cc.Rune[i], cc.Rune[i+1]
-				if hi > 255 {
-					hi = 255
-				}
-				if lo > 255 {
-					continue
-				}
-				for r := lo; r <= hi; r++ {
-					m.charClass[byte(r)] = true
-				}
+		if len(re.Sub) == 1 && re.Sub[0].Op == syntax.OpCharClass && re.Flags&syntax.NonGreedy == 0 {
+			if !asciiClass(re.Sub[0], &m.charClass) {
+				return branchMatcher{}
 			}
 			m.hasCharClass = true
 			m.minMatch = 1
@@ -151,35 +235,12 @@ func buildBranchMatcher(re *syntax.Regexp) branchMatcher {
 
 	case syntax.OpStar:
 		// char_class* like \d*
-		if len(re.Sub) == 1 && re.Sub[0].Op == syntax.OpCharClass {
-			cc := re.Sub[0]
-			for i := 0; i < len(cc.Rune); i += 2 {
-				lo, hi := cc.Rune[i], cc.Rune[i+1]
-				if hi > 255 {
-					hi = 255
-				}
-				if lo > 255 {
-					continue
-				}
-				for r := lo; r <= hi; r++ {
-					m.charClass[byte(r)] = true
-				}
+		if len(re.Sub) == 1 && re.Sub[0].Op == syntax.OpCharClass && re.Flags&syntax.NonGreedy == 0 {
+			if !asciiClass(re.Sub[0], &m.charClass) {
+				return branchMatcher{}
 			}
 			m.hasCharClass = true
 			m.minMatch = 0
-		}
-
-	case syntax.OpConcat:
-		// Concatenation - check if starts with literal
-		if len(re.Sub) > 0 && re.Sub[0].Op == syntax.OpLiteral {
-			lit := re.Sub[0]
-			m.literal = make([]byte, len(lit.Rune))
-			for i, r := range lit.Rune {
-				if r > 255 {
-					return branchMatcher{} // Non-ASCII
-				}
-				m.literal[i] = byte(r)
-			}
 		}
 	}
 
@@ -213,6 +274,10 @@ func (d *BranchDispatcher) IsMatch(haystack []byte) bool {
 			}
 		}
 		return true
+	}
+
+	if len(m.seq) > 0 {
+		return m.matchSeq(haystack) >= 0
 	}
 
 	if m.hasCharClass {
@@ -264,6 +329,13 @@ func (d *BranchDispatcher) Search(haystack []byte) (int, int, bool) {
 		return 0, len(m.literal), true
 	}
 
+	if len(m.seq) > 0 {
+		if n := m.matchSeq(haystack); n >= 0 {
+			return 0, n, true
+		}
+		return -1, -1, false
+	}
+
 	if m.hasCharClass {
 		// Char class match - greedy
 		count := 0
@@ -290,13 +362,14 @@ func IsBranchDispatchPattern(re *syntax.Regexp) bool {
 		return false
 	}
 
-	// Must be concatenation starting with ^ anchor
-	if re.Op != syntax.OpConcat || len(re.Sub) < 2 {
+	// Must be exactly: ^ anchor followed by the alternation (anything after the
+	// alternation would be ignored by the dispatcher)
+	if re.Op != syntax.OpConcat || len(re.Sub) != 2 {
 		return false
 	}
 
-	// First element must be start anchor
-	if re.Sub[0].Op != syntax.OpBeginLine && re.Sub[0].Op != syntax.OpBeginText {
+	// First element must be the start-of-text anchor ((?m)^ also matches after a newline)
+	if re.Sub[0].Op != syntax.OpBeginText {
 		return false
 	}
 
